@@ -114,7 +114,7 @@ def main():
         if spec.get("custom_module"):
             import importlib
             return importlib.import_module(spec["custom_module"]).replay(prop, path)
-        exe = build.build_engine()
+        exe = build.build_engine_fi() if spec.get("fi") else build.build_engine()
         rec = json.load(open(path))
         rc, out = replay_once(exe, prop, rec["case"])
         sys.stdout.write(out)
@@ -132,7 +132,7 @@ def main():
     if spec.get("custom_module"):
         import importlib
         return importlib.import_module(spec["custom_module"]).run(prop, tier, seed, jobs)
-    exe = build.build_engine()
+    exe = build.build_engine_fi() if spec.get("fi") else build.build_engine()
     outdir = os.path.join(ROOT, "build", "run", prop)
     r = run_engine(exe, prop, tier, seed, outdir, jobs)
     agg = aggregate(outdir)
